@@ -145,7 +145,7 @@ AscSeq(f, K) == IF K = {} THEN <<>>
                      IN  [i \in 1..NumCount(f, m) |-> m] \o AscSeq(f, K \ {m})
 Numbers(f) == AscSeq(f, Nums(f))
 
-RangePairs == {p \in Bounds \X Bounds : p[1] <= p[2]}
+RangePairs == {p \in Bounds \X Bounds : p[1] < p[2] \/ (p[1] = 0 /\ p[2] = 0)}
 
 \* terms probed by the match query: the universe and whatever the state holds
 ProbeTerms(f) == Terms \cup FieldTerms(f)
@@ -220,6 +220,6 @@ ONext == /\ Len(hist) = 1
               /\ UNCHANGED sts
 EmitAnswers == Len(hist) = 2 => Emit("ans", [s |-> Abs, x |-> [f \in fields |-> Answers(f)]])
 
-EmitUniverse == Emit("universe", [fields |-> FieldSet, docs |-> DocSet, terms |-> Terms, bounds |-> Bounds])
+EmitUniverse == Emit("universe", [fields |-> FieldSet, docs |-> DocSet, terms |-> Terms, ranges |-> RangePairs])
 ASSUME EmitUniverse
 =============================================================================
